@@ -87,9 +87,8 @@ def check_overload(site, r, ov, kind, cls, where):
             probs.append(('C06.callee', '%s: calls %s, expected obj->%s' % (where, r.call,
                                                                             ov['cpp'])))
     elif kind == 'static':
-        want = cls['cpp'] + '::' + ov['cpp'].split('<')[0]
-        if canon(r.call.split('<')[0] if not cls['cpp'].count('<') else r.call) != canon(want) \
-                and canon(r.call) != canon(want):
+        want = cls['cpp'] + '::' + ov['cpp']
+        if canon(r.call) != canon(want):
             probs.append(('C06.callee', '%s: calls %s, expected %s' % (where, r.call, want)))
     else:
         want = '::'.join(tuple(ov['path']) + (ov['cpp'],))
